@@ -13,7 +13,7 @@
 
 namespace {
 
-enum { OP_ACQ = 1, OP_CALLOC, OP_REALLOC, OP_REL, OP_SEND, OP_RECV, OP_CHECKPOINT, OP_YIELD, OP_REALLOC_NULL, OP_REL_BURST, OP_BULK, OP_REL_KEEP_ONE_PER_PAGE, OP_REL_PAGE };
+enum { OP_ACQ = 1, OP_CALLOC, OP_REALLOC, OP_REL, OP_SEND, OP_RECV, OP_CHECKPOINT, OP_YIELD, OP_REALLOC_NULL, OP_REL_BURST, OP_BULK, OP_REL_KEEP_ONE_PER_PAGE, OP_REL_PAGE, OP_QUERY };
 static const size_t PAGE = 4096;
 static const int MAXW = 4;
 
@@ -46,6 +46,7 @@ struct Ctx {
     uint64_t generation = 0;
     sim::Gate gate;
     int checkpoints = 0;
+    uint64_t placed_cls_total = 0; // sum of the size classes of every small block ever placed (monotone)
 };
 
 size_t class_of(size_t n) {
@@ -123,6 +124,7 @@ Block place(Ctx &c, uint8_t *p, size_t size) {
     }
     fill_block(p, size, b.tag);
     c.live[(uintptr_t)p] = b;
+    c.placed_cls_total += b.cls;
     return b;
 }
 
@@ -300,6 +302,26 @@ void run_worker(Ctx &c, int idx) {
                 w.mailbox.clear();
                 break;
             case OP_YIELD: sim::yield(); break;
+            case OP_QUERY: {
+                // bytes_active while other threads are working: whatever they are doing, the answer covers every small block that is live
+                // before the call starts and is not released before it returns, and no more than those plus what came and went meanwhile.
+                // (c.live holds exactly the blocks whose acquire has returned and whose release has not been invoked.)
+                std::map<uintptr_t, uint64_t> snap;
+                size_t live_start = 0;
+                for (auto &kv : c.live) if (kv.second.cls) { snap[kv.first] = kv.second.tag; live_start += kv.second.cls; }
+                uint64_t placed_start = c.placed_cls_total;
+                sim::note(sim::PK_HARNESS, nullptr, 77);
+                size_t got = aws_small_block_allocator_bytes_active(c.sba);
+                size_t lower = 0;
+                for (auto &kv : snap) { auto it = c.live.find(kv.first); if (it != c.live.end() && it->second.tag == kv.second) lower += it->second.cls; }
+                size_t upper = live_start + (size_t)(c.placed_cls_total - placed_start) + 2 * (size_t)c.nworkers * 512;
+                if (got < lower)
+                    sim::violation("c03:bytes-active", "concurrent query: bytes_active reports %zu, but small blocks worth %zu bytes were live before the call and still are after it", got, lower);
+                if (got > upper) sim::violation("c03:bytes-active", "concurrent query: bytes_active reports %zu, more than everything that was live or came to life during the call (%zu)", got, upper);
+                sim::probe("bytes_active_queried_while_other_threads_work");
+                c.ops_done++;
+                break;
+            }
             case OP_CHECKPOINT: {
                 if (c.nworkers == 1) { quiescent_check(c, "checkpoint"); break; }
                 uint64_t gen = c.generation;
@@ -593,7 +615,8 @@ void gen(uint64_t seed, int tier, sim::Plan &p) {
             else if (k < 80) { op.kind = OP_REL_BURST; op.a = r.pick(std::vector<int64_t>{2, 7, 8, 20}); }
             else if (k < 87 && nw > 1) { op.kind = OP_SEND; op.a = r.range(0, 1000); op.b = r.range(0, 3); }
             else if (k < 93 && nw > 1) { op.kind = OP_RECV; }
-            else if (k < 97) { op.kind = OP_CHECKPOINT; }
+            else if (k < 96) { op.kind = OP_CHECKPOINT; }
+            else if (k < 98 && nw > 1) { op.kind = OP_QUERY; }
             else op.kind = OP_YIELD;
             p.ops.push_back(op);
         }
@@ -639,6 +662,7 @@ std::string op_text(const sim::Op &op) {
         case OP_RECV: snprintf(b, sizeof b, "T%d: take over blocks handed to this thread", op.thr); break;
         case OP_CHECKPOINT: snprintf(b, sizeof b, "T%d: checkpoint (quiescent accounting check when all threads arrive)", op.thr); break;
         case OP_YIELD: snprintf(b, sizeof b, "T%d: yield", op.thr); break;
+        case OP_QUERY: snprintf(b, sizeof b, "T%d: aws_small_block_allocator_bytes_active() while other threads work (bounded by what stays live / what is live or comes to life)", op.thr); break;
         case OP_REL_BURST: snprintf(b, sizeof b, "T%d: release the %lld oldest own blocks in a row", op.thr, (long long)op.a); break;
         case OP_BULK: snprintf(b, sizeof b, op.a < 0 ? "T%d: acquire as many blocks as the last mass release freed (%lld) of %lld bytes" : "T%d: acquire %lld blocks of %lld bytes in a row and keep them", op.thr, (long long)op.a, (long long)op.b); break;
         case OP_REL_KEEP_ONE_PER_PAGE: snprintf(b, sizeof b, "T%d: release every own small block except one per page", op.thr); break;
